@@ -243,6 +243,10 @@ for nm, path, wide in (('strtok_s', 'src/str/strtok_s.c', False), ('wcstok_s', '
       defines=['N=4', 'DL=2'] + (['WIDE'] if wide else []), unwind=9, object_bits=10, replay=True,
       functions=['_%s_chk' % nm], timeout=3000, tiers=('thorough',),
       bound='strings of at most 5 elements, two delimiter sets of <= 2 characters chosen per call, 7 calls')
+    J('B.%s.delim16' % nm, ['C14', 'C02'], 'B', 'harness/tokfam.c', sources=[path] + WCS_COMMON,
+      defines=['N=2', 'DL=16', 'K=1'] + (['WIDE'] if wide else []), unwind=20, object_bits=10, replay=True, quick_props=['C14'],
+      functions=['_%s_chk' % nm], timeout=(3000 if wide else 1200), tiers=(('thorough',) if wide else ('quick', 'thorough')), mem_gb=(16 if wide else 6),
+      bound='strings of at most 3 elements, delimiter sets of up to 16 characters (exactly the STRTOK_DELIM_MAX_LEN limit), 1 call')
     J('B.%s.delim17' % nm, ['C14', 'C02'], 'B', 'harness/tokfam.c', sources=[path] + WCS_COMMON,
       defines=['N=1', 'DL=17', 'K=2'] + (['WIDE'] if wide else []), unwind=21, object_bits=10, replay=True,
       functions=['_%s_chk' % nm], timeout=3000, tiers=('thorough',),
